@@ -410,8 +410,8 @@ func OracleC01Replies(r *EngRun) []explore.Violation {
 	type hold struct {
 		id      byte
 		count   uint16
-		from    int // index of the grant reply
-		relFrom int // number of replies produced when the first release request for it was handed in (or its EXPRIED index); -1: never
+		from    int   // index of the grant reply
+		relFrom int   // number of replies produced when the first release request for it was handed in (or its EXPRIED index); -1: never
 		until   int64 // virtual instant before which the hold cannot have been ended by time
 	}
 	sent := map[string]SentReq{}
